@@ -30,6 +30,7 @@
      * the 32-bit wrap-around of the HEARTBEAT/ACKNACK counters is not represented;
      * all changes are ALIVE (the scenarios only write). *)
 From DustDDS Require Export Base.Machine.
+From Coq Require Export Sorted.
 Open Scope Z_scope.
 
 (* ------------------------------------------------------------------ vocabulary *)
@@ -599,7 +600,8 @@ Definition act (cf : cfg) (s : state) (a : action) : state * out :=
     match s_rd s with
     | Some _ => (s, ONone)
     | None =>
-      if s_rdead s then (s, ONone)
+      (* one reader per scenario: no second match once a reader proxy exists or the peer is gone *)
+      if s_rdead s || (match s_rp s with Some _ => true | None => false end) then (s, ONone)
       else if rxo_ok cf rel tl then
         (* discovery takes several worker iterations: the first poke after add_matched_reader sends the
            unsent changes, a later one may find a HEARTBEAT due *)
@@ -653,6 +655,15 @@ Definition run (cf : cfg) (s : state) (l : list action) : state := fst (run_out 
 (* `heal`: one heartbeat period and a bit (5 ticks = 250 ms), then loss-free FIFO delivery *)
 Definition heal_round : list action := [ATick; ATick; ATick; ATick; ATick; APump].
 Fixpoint heal (k : nat) : list action := match k with O => [] | S n => heal_round ++ heal n end.
+
+(* ------------------------------------------------------------------ specification vocabulary *)
+(* l1 is a subsequence of l2: same elements, same relative order *)
+Inductive sublist {A} : list A -> list A -> Prop :=
+| sub_nil : forall l, sublist [] l
+| sub_skip : forall x l1 l2, sublist l1 l2 -> sublist l1 (x :: l2)
+| sub_take : forall x l1 l2, sublist l1 l2 -> sublist (x :: l1) (x :: l2).
+
+Definition strictly_increasing (l : list change) : Prop := StronglySorted Z.lt (map c_sn l).
 
 (* presented list of the reader (ghost), [] if there is no reader *)
 Definition presented (s : state) : list change := match s_rd s with Some r => rd_pres r | None => [] end.
